@@ -24,15 +24,19 @@ package main
 
 import (
 	"bytes"
+	"compress/gzip"
 	"fmt"
+	"io"
 	"math"
 	"reflect"
 	"sort"
+	"strconv"
 	"strings"
 
 	"google.golang.org/protobuf/encoding/protojson"
 	"google.golang.org/protobuf/encoding/prototext"
 	"google.golang.org/protobuf/encoding/protowire"
+	ptag "google.golang.org/protobuf/internal/encoding/tag"
 	"google.golang.org/protobuf/proto"
 	"google.golang.org/protobuf/protoadapt"
 	"google.golang.org/protobuf/reflect/protodesc"
@@ -1100,6 +1104,74 @@ func legacyAPIs(c *Ctx, g *legacyGen) {
 	if rfd, err := protoregistry.GlobalFiles.FindFileByPath(fd.Path()); err == nil && // (the 2016 generations do not register their file)
 		!proto.Equal(protodesc.ToFileDescriptorProto(rfd), protodesc.ToFileDescriptorProto(fd)) {
 		c.PropFail("C46", "legacy file descriptor differs from the registered one", g.name, fd.Path())
+	}
+	// legacy enums (legacy_enum.go, legacy_export.go): the Go enum types of the struct fields
+	mt0 := reflect.TypeOf(m).Elem()
+	for i := 0; i < mt0.NumField(); i++ {
+		sf := mt0.Field(i)
+		tag := sf.Tag.Get("protobuf")
+		if !strings.Contains(tag, "enum=") || sf.Type.Kind() == reflect.Map {
+			continue
+		}
+		et := sf.Type
+		for et.Kind() == reflect.Ptr || et.Kind() == reflect.Slice {
+			et = et.Elem()
+		}
+		if et.Kind() != reflect.Int32 {
+			continue
+		}
+		fdesc := ptag.Unmarshal(tag, et, legacyAnyEnumValues{})
+		want := g.md.Fields().ByNumber(fdesc.Number())
+		if want == nil || want.Enum() == nil {
+			c.PropFail("C46", "struct field with enum= tag has no enum field in the descriptor", g.name, sf.Name)
+			continue
+		}
+		vs := want.Enum().Values()
+		ev := reflect.New(et).Elem()
+		ev.SetInt(int64(vs.Get(vs.Len() - 1).Number()))
+		e := ev.Interface()
+		ed := protoimpl.X.EnumDescriptorOf(e)
+		if ed.FullName() != want.Enum().FullName() || ed.Values().Len() != vs.Len() {
+			c.PropFail("C46", "EnumDescriptorOf(legacy enum) differs from the field's enum", g.name, sf.Name)
+		}
+		pe := protoimpl.X.EnumOf(e)
+		if pe.Number() != vs.Get(vs.Len()-1).Number() || pe.Descriptor() != ed || protoimpl.X.EnumTypeOf(e).Descriptor() != ed {
+			c.PropFail("C46", "EnumOf / EnumTypeOf(legacy enum) inconsistent", g.name, sf.Name)
+		}
+		if got := protoimpl.X.EnumTypeOf(e).New(pe.Number()); got.Number() != pe.Number() || got.Descriptor() != ed {
+			c.PropFail("C46", "EnumTypeOf(legacy enum).New differs", g.name, sf.Name)
+		}
+		last := vs.Get(vs.Len() - 1)
+		if str := protoimpl.X.EnumStringOf(ed, last.Number()); str != string(last.Name()) {
+			c.PropFail("C46", "EnumStringOf(legacy enum) differs from the value name", g.name, sf.Name)
+		}
+		if n, err := protoimpl.X.UnmarshalJSONEnum(ed, []byte(strconv.Quote(string(last.Name())))); err != nil || n != last.Number() {
+			c.PropFail("C46", "UnmarshalJSONEnum by name", g.name, sf.Name)
+		}
+		if n, err := protoimpl.X.UnmarshalJSONEnum(ed, []byte(strconv.Itoa(int(last.Number())))); err != nil || n != last.Number() {
+			c.PropFail("C46", "UnmarshalJSONEnum by number", g.name, sf.Name)
+		}
+		if _, err := protoimpl.X.UnmarshalJSONEnum(ed, []byte(`"NO_SUCH_VALUE"`)); err == nil {
+			c.PropFail("C46", "UnmarshalJSONEnum accepts an unknown name", g.name, sf.Name)
+		}
+		// the enum= name in the tag is the legacy enum name of the descriptor
+		if i := strings.Index(tag, "enum="); i >= 0 {
+			name := tag[i+5:]
+			if j := strings.IndexByte(name, ','); j >= 0 {
+				name = name[:j]
+			}
+			if got := protoimpl.X.LegacyEnumName(ed); got != name {
+				c.PropFail("C46", "LegacyEnumName differs from the enum= name in the generated tag", g.name, name, got)
+			}
+		}
+		c.Stat("legacy-enum")
+	}
+	// CompressGZIP (used by newer generated code to embed descriptors) inflates to the input
+	raw, _ := proto.Marshal(protodesc.ToFileDescriptorProto(fd))
+	if zr, err := gzip.NewReader(bytes.NewReader(protoimpl.X.CompressGZIP(raw))); err != nil {
+		c.PropFail("C46", "CompressGZIP output is not gzip", g.name)
+	} else if back, err := io.ReadAll(zr); err != nil || !bytes.Equal(back, raw) {
+		c.PropFail("C46", "CompressGZIP output does not inflate to its input", g.name)
 	}
 	// a round trip of the file through descriptorpb gives an equal schema: dynamicpb on the
 	// rebuilt descriptor produces the same bytes (done per content in legacyRebuiltPair)
